@@ -1,6 +1,6 @@
 (* C14 - end markers go to the old tunnel, once.  Statements only. *)
 From Coq Require Import NArith List Bool.
-From UPF Require Import Model.IPPool Model.Fteid Model.PortRange Model.Agent Proofs.AgentProofs.
+From UPF Require Import Model.IPPool Model.Fteid Model.PortRange Model.Agent Proofs.AgentProofs Model.ModDp Proofs.ModDpProofs.
 Import ListNotations.
 Open Scope N_scope.
 
@@ -128,3 +128,32 @@ Proof.
   split; [vm_compute; reflexivity|]. split; [vm_compute; reflexivity|]. split; [vm_compute; reflexivity|].
   split; [vm_compute; reflexivity|]. split; vm_compute; reflexivity.
 Qed.
+
+(* 5. both datapaths ("failed updates emit none", "after the new rule has been programmed").  Model/ModDp.v is the
+      modification handler with the answer of SendMsgToUPF(Mod) as a parameter: with an accepting datapath it IS handle_mod
+      (so 1-4 speak about it); when the datapath refuses the update (UP4: a P4Runtime Write failed) the request is answered
+      with a rejection and no end marker is emitted; hence markers are emitted only after a successful update *)
+Theorem C14_dp_handler_is_handle_mod : forall burst a c seid cpf cp cf cq up uf uq rp rf rq,
+  handle_mod_dp burst true a c seid cpf cp cf cq up uf uq rp rf rq = handle_mod burst a c seid cpf cp cf cq up uf uq rp rf rq.
+Proof. exact handle_mod_dp_ok. Qed.
+Print Assumptions C14_dp_handler_is_handle_mod.
+Theorem C14_failed_update_none : forall burst a c seid cpf cp cf cq up uf uq rp rf rq a' c' o,
+  handle_mod_dp burst false a c seid cpf cp cf cq up uf uq rp rf rq = Done (a', c', o) ->
+  o_markers o = [] /\ exists r, o_reply o = Some (RMod r CAUSE_REJ).
+Proof. exact mod_dp_failed. Qed.
+Print Assumptions C14_failed_update_none.
+Theorem C14_markers_only_after_successful_update : forall burst dp_ok a c seid cpf cp cf cq up uf uq rp rf rq a' c' o,
+  handle_mod_dp burst dp_ok a c seid cpf cp cf cq up uf uq rp rf rq = Done (a', c', o) -> o_markers o <> [] -> dp_ok = true.
+Proof. exact mod_dp_markers_need_success. Qed.
+Print Assumptions C14_markers_only_after_successful_update.
+
+(* non-vacuity: the flagged update of C14_nonvacuous with a refusing datapath: rejected, no marker (the stored FAR is already the new one: the
+   in-place effect of UpdateFAR) *)
+Example C14_failed_update_nonvacuous :
+  let a := Agent (Cfg 100 200 true) None (Gen 0 []) 1 no_tables in
+  let s := Sess 5 77 (s_of []) (s_of [Far 2 5 0 false 2 1 100 9 4 2152]) (s_of []) in
+  let upd := FarIE (IOk 2) (IOk 2) IErr (IOk [FDst (IOk 0); FOhc (IOk (6, Some 8)); FSm (IOk 2)]) in
+  exists a' c' cmds, handle_mod_dp (fun _ _ _ => 0) false a (Conn 7 [] [s] 0) 5 None [] [] [] [] [upd] [] [] [] []
+                = Done (a', c', Out (Some (RMod 77 CAUSE_REJ)) cmds [] false)
+                /\ map (fun x => view (s_fars x)) (c_sessions c') = [[Far 2 5 0 true 2 1 100 8 6 2152]].
+Proof. eexists; eexists; eexists; split; vm_compute; reflexivity. Qed.
